@@ -217,18 +217,25 @@ def _same(impl_vals, model_vals):
     return len(impl_vals) == len(mv) and all(proto.fr(a) == b for a, b in zip(impl_vals, mv))
 
 
-def hht_compare(out, results, do_1d=True):
+def hht_compare(out, results, do_1d=True, outside=False):
     """Exact correspondence of dense, sparse triplets (as a multiset: the storage order of COO triplets is not
-    observable through the matrix they denote) and the 1-D spectrum."""
+    observable through the matrix they denote) and the 1-D spectrum.  Where the model refuses an input the
+    implementation must refuse it too - with ANY exception (the property fixes no exception class).  `outside`: the
+    input is outside the property's quantifier (malformed shapes / edges, NaN frequencies, vector input): a difference
+    in whether it is refused at all is not judged (skip)."""
     r = results[0]
     d, s = out['dense'], out['sparse']
     if r.status == 'err':
         kind = r.words[0]
         for nm, o in (('dense', d), ('sparse', s)):
-            if o.get('error') != kind:
-                return 'model: err %s; implementation %s: %s' % (kind, nm, o.get('error', 'returned a value'))
+            if 'error' not in o:
+                if outside:
+                    return 'skip:input outside the quantifier: the model refuses it (%s), the implementation returns a value' % kind
+                return 'model: err %s; implementation %s: returned a value' % (kind, nm)
     elif r.ok:
         if 'error' in d or 'error' in s:
+            if outside:
+                return 'skip:input outside the quantifier: the implementation refuses it (%s / %s), the model does not' % (d.get('error'), s.get('error'))
             return 'model returns a spectrum; implementation raised %s / %s' % (d.get('error'), s.get('error'))
         nb, T = int(r.args['nb']), int(r.args['T'])
         if d['shape'] != [nb, T] or s['shape'] != [nb, T]:
@@ -241,6 +248,8 @@ def hht_compare(out, results, do_1d=True):
             return 'sparse triplets differ: impl rows %s cols %s data %s; model %s' % (s['row'][:12], s['col'][:12], s['data'][:12], r.raw[:240])
         for lab, key in (('dense_again', 'v'), ('sparse_again', 'toarray')):
             o = out.get(lab)
+            if o is not None and 'error' in o and outside:
+                return 'skip:input outside the quantifier: the implementation refuses it (%s), the model does not' % o['error']
             if o is not None and ('error' in o or o['shape'] != [nb, T] or not _same(o[key], r.vecs[0])):
                 return '%s (call order %s) differs from the model: impl %s model %s' % (
                     lab, out.get('order'), o.get('error') or o[key][:24], r.raw[:200])
@@ -250,10 +259,14 @@ def hht_compare(out, results, do_1d=True):
         r = results[1]
         o = out['oned']
         if r.status == 'err':
-            if o.get('error') != r.words[0]:
-                return 'model 1d: err %s; implementation: %s' % (r.words[0], o.get('error', 'returned a value'))
+            if 'error' not in o:
+                if outside:
+                    return 'skip:input outside the quantifier: the model refuses it (%s), the 1-D implementation returns a value' % r.words[0]
+                return 'model 1d: err %s; implementation: returned a value' % r.words[0]
         elif r.ok:
             if 'error' in o:
+                if outside:
+                    return 'skip:input outside the quantifier: the 1-D implementation refuses it (%s), the model does not' % o['error']
                 return 'model returns a 1-D spectrum; implementation raised %s' % o['error']
             if o['shape'] != [int(r.args['nb']), int(r.args['M'])]:
                 return '1d shape: impl %s model %s' % (o['shape'], r.raw[:60])
